@@ -30,7 +30,7 @@ Definition mk_store (es : list ent) : store :=
 Inductive obs := OOk (l : list run) | ONotFound | OOther.
 
 Inductive mn := MN (self : option (N * N)) (is_value : bool) (e : N) (eref : N * N) (forks : list mn).
-(* e: 0 = empty entry, 1 = the 32-byte zero entry, 2 = reference [eref] *)
+(* e: 0 = empty entry (length 0), 1 = all-zero entry (the serialised empty entry), 2 = reference [eref] *)
 
 Inductive case :=
 | CFile (enc : bool) (ra rk : N) (st : list ent) (trav data pyr : obs)
